@@ -226,10 +226,11 @@ theorem send_spec (src : Nat → α) (s : St α) (hi : Inv src s) (hk : lookup s
     (∀ k', k' ≠ s.nextKey → cursor (send s).2 k' = cursor s k') ∧
     (send s).2.pos = s.pos ∧ (send s).2.buf = s.buf ∧
     (send s).2.nextKey = (s.nextKey + 1) % usizeMod ∧
+    (send s).2.handle = s.handle ∧
     Inv src (send s).2 := by
   obtain ⟨hlen, hbuf, hfr, hnd, hmin⟩ := hi
   have hoth : others s.nextKey s.reads = s.reads := others_of_lookup_none hk
-  refine ⟨rfl, ?_, ?_, rfl, rfl, rfl, ?_⟩
+  refine ⟨rfl, ?_, ?_, rfl, rfl, rfl, rfl, ?_⟩
   · simp only [cursor, send, base, hoth]
     rw [lookup_append_single, hk]; simp; omega
   · intro k' hne
@@ -256,7 +257,7 @@ theorem nextFrame_spec (src : Nat → α) (s : St α) (key fr : Nat) (hi : Inv s
       cursor s' key = some (base s + fr + 1) ∧
       (∀ k', k' ≠ key → cursor s' k' = cursor s k') ∧
       s'.pos = max s.pos (base s + fr + 1) ∧
-      s'.nextKey = s.nextKey ∧
+      s'.nextKey = s.nextKey ∧ s'.handle = s.handle ∧
       (∀ x ∈ s'.reads.map (·.1), x ∈ s.reads.map (·.1)) ∧
       Inv src s' := by
   obtain ⟨hlen, hbuf, hfr, hnd, hmin⟩ := hi
@@ -302,7 +303,7 @@ theorem nextFrame_spec (src : Nat → α) (s : St α) (key fr : Nat) (hi : Inv s
     by_cases hleast : (others key s.reads).any (fun p => decide (p.2 ≤ fr)) = true
     · -- someone else still needs the front frame
       simp only [hleast, Bool.not_true, Bool.false_eq_true, if_false]
-      refine ⟨_, _, rfl, hframe, ?_, ?_, ?_, rfl, hkeys1 _, ?_⟩
+      refine ⟨_, _, rfl, hframe, ?_, ?_, ?_, rfl, rfl, hkeys1 _, ?_⟩
       · simp [cursor, base, lookup_append_single, lookup_others_self]; omega
       · intro k' hne
         simp only [cursor, base]
@@ -337,7 +338,7 @@ theorem nextFrame_spec (src : Nat → α) (s : St α) (key fr : Nat) (hi : Inv s
       simp only [hleast, Bool.not_false, if_true]
       have hlen1 : 1 ≤ s.buf.length := by omega
       have hbase' : s.pos - s.buf.tail.length = base s + 1 := by simp [List.length_tail]; unfold base; omega
-      refine ⟨_, _, rfl, hframe, ?_, ?_, ?_, rfl, hkeys2 _, ?_⟩
+      refine ⟨_, _, rfl, hframe, ?_, ?_, ?_, rfl, rfl, hkeys2 _, ?_⟩
       · simp only [cursor, base]; rw [hbase', lookup_append_single, lookup_map_sub, lookup_others_self]; simp [base]; omega
       · intro k' hne
         simp only [cursor, base]; rw [hbase', lookup_append_single, lookup_map_sub, hoth_lookup k' hne]
@@ -371,7 +372,7 @@ theorem nextFrame_spec (src : Nat → α) (s : St α) (key fr : Nat) (hi : Inv s
       rw [run_snoc]; rfl
     by_cases hleast : (others key s.reads).any (fun p => decide (p.2 ≤ fr)) = true
     · simp only [hleast, Bool.not_true, Bool.false_eq_true, if_false]
-      refine ⟨_, _, rfl, by congr 1; unfold base; omega, ?_, ?_, ?_, rfl, hkeys1 _, ?_⟩
+      refine ⟨_, _, rfl, by congr 1; unfold base; omega, ?_, ?_, ?_, rfl, rfl, hkeys1 _, ?_⟩
       · simp only [cursor, base, List.length_append, List.length_singleton]
         rw [lookup_append_single, lookup_others_self]; simp; omega
       · intro k' hne
@@ -416,7 +417,7 @@ theorem nextFrame_spec (src : Nat → α) (s : St α) (key fr : Nat) (hi : Inv s
         · rw [hnone] at hp; simp at hp
       have hbnil : s.buf = [] := List.eq_nil_of_length_eq_zero hlen0
       simp only [hnone, List.map_nil, List.nil_append]
-      refine ⟨_, _, rfl, by congr 1; unfold base; omega, ?_, ?_, ?_, rfl, ?_, ?_⟩
+      refine ⟨_, _, rfl, by congr 1; unfold base; omega, ?_, ?_, ?_, rfl, rfl, ?_, ?_⟩
       · simp [cursor, base, lookup, hbnil]; omega
       · intro k' hne
         have : lookup k' s.reads = none := by
@@ -433,7 +434,7 @@ theorem dropOutput_spec (src : Nat → α) (s : St α) (key fr : Nat) (hi : Inv 
     ∃ s', dropOutput s key = some s' ∧
       cursor s' key = none ∧
       (∀ k', k' ≠ key → cursor s' k' = cursor s k') ∧
-      s'.pos = s.pos ∧ s'.nextKey = s.nextKey ∧
+      s'.pos = s.pos ∧ s'.nextKey = s.nextKey ∧ s'.handle = s.handle ∧
       (∀ x ∈ s'.reads.map (·.1), x ∈ s.reads.map (·.1)) ∧
       Inv src s' := by
   obtain ⟨hlen, hbuf, hfr, hnd, hmin⟩ := hi
@@ -451,7 +452,7 @@ theorem dropOutput_spec (src : Nat → α) (s : St α) (key fr : Nat) (hi : Inv 
     · simp [h0]
     · have h0' : L = 0 := by omega
       simp [h0']
-  refine ⟨_, hform, ?_, ?_, rfl, rfl, ?_, ?_⟩
+  refine ⟨_, hform, ?_, ?_, rfl, rfl, rfl, ?_, ?_⟩
   · simp only [cursor]; rw [lookup_map_sub, lookup_others_self]; rfl
   · intro k' hne
     simp only [cursor, base, List.length_drop]
@@ -524,16 +525,31 @@ theorem absent_of_fresh {s : St α} (hf : Fresh s) : lookup s.nextKey s.reads = 
   have := hf p hp
   omega
 
+theorem runX_ops {α : Type} (src : Nat → α) (srcDone : Nat → Bool) (fuel : Nat) (ops : List Op) (s : St α) :
+    (runX src srcDone fuel s (ops.map .op)).map (List.map fun r => r.2) = (run src s ops).map (List.map fun r => r.2) := by
+  induction ops generalizing s with
+  | nil => rfl
+  | cons o ops ih =>
+    simp only [List.map_cons, runX, stepX, run]
+    cases hst : step src s o with
+    | none => simp
+    | some rs =>
+      obtain ⟨r, s'⟩ := rs
+      simp only [Option.map]
+      have := ih s'
+      cases h1 : runX src srcDone fuel s' (ops.map .op) <;> cases h2 : run src s' ops <;> simp_all
+
 /-! ### refinement of the cursor specification `Abs` -/
 
 /-- the abstract state a concrete state stands for -/
-def absOf (s : St α) : Abs := ⟨s.pos, cursor s, s.nextKey⟩
+def absOf (s : St α) : Abs := ⟨s.pos, cursor s, s.nextKey, s.handle⟩
 
-theorem Abs.eq_of {a b : Abs} (h1 : a.P = b.P) (h2 : ∀ k, a.cur k = b.cur k) (h3 : a.nextKey = b.nextKey) : a = b := by
+theorem Abs.eq_of {a b : Abs} (h1 : a.P = b.P) (h2 : ∀ k, a.cur k = b.cur k) (h3 : a.nextKey = b.nextKey)
+    (h4 : a.handle = b.handle) : a = b := by
   cases a; cases b
-  simp only at h1 h2 h3
+  simp only at h1 h2 h3 h4
   have h2' := funext h2
-  subst h1; subst h3; subst h2'
+  subst h1; subst h3; subst h2'; subst h4
   rfl
 
 theorem fresh_of_keys_sub {s s' : St α} (hf : Fresh s) (hn : s.nextKey ≤ s'.nextKey)
@@ -551,29 +567,48 @@ theorem step_refines (src : Nat → α) (s : St α) (op : Op) (hi : Inv src s) (
     ∀ r s', step src s op = some (r, s') → Inv src s' ∧ Fresh s' ∧ s'.nextKey ≤ s.nextKey + 1 := by
   cases op with
   | send =>
-    obtain ⟨_, h2, h3, h4, _, h6, h7⟩ := send_spec src s hi (absent_of_fresh hf)
+    obtain ⟨_, h2, h3, h4, _, h6, h8, h7⟩ := send_spec src s hi (absent_of_fresh hf)
     have hmod : (s.nextKey + 1) % usizeMod = s.nextKey + 1 := Nat.mod_eq_of_lt hn
-    constructor
-    · simp only [step, Option.map, Abs.step, absOf]
-      congr 2
-      apply Abs.eq_of
-      · exact h4
-      · intro k
-        by_cases hk : k = s.nextKey
-        · subst hk; simp [h2]
-        · simp [hk, h3 k hk]
-      · exact h6
-    · intro r s' hst
-      simp only [step, Option.some.injEq, Prod.mk.injEq] at hst
-      obtain ⟨_, rfl⟩ := hst
-      refine ⟨h7, ?_, by rw [h6, hmod]; exact Nat.le_refl _⟩
-      intro p hp
-      rw [h6, hmod]
-      have hoth : others s.nextKey s.reads = s.reads := others_of_lookup_none (absent_of_fresh hf)
-      simp only [send, hoth] at hp
-      rcases List.mem_append.mp hp with h | h
-      · have := hf p h; omega
-      · simp at h; subst h; simp
+    by_cases hh : s.handle = true
+    · constructor
+      · simp only [step, hh, if_true, Option.map, Abs.step, absOf]
+        congr 2
+        apply Abs.eq_of
+        · exact h4
+        · intro k
+          by_cases hk : k = s.nextKey
+          · subst hk; simp [h2]
+          · simp [hk, h3 k hk]
+        · exact h6
+        · simp only [h8, hh]
+      · intro r s' hst
+        simp only [step, hh, if_true, Option.some.injEq, Prod.mk.injEq] at hst
+        obtain ⟨_, rfl⟩ := hst
+        refine ⟨h7, ?_, by rw [h6, hmod]; exact Nat.le_refl _⟩
+        intro p hp
+        rw [h6, hmod]
+        have hoth : others s.nextKey s.reads = s.reads := others_of_lookup_none (absent_of_fresh hf)
+        simp only [send, hoth] at hp
+        rcases List.mem_append.mp hp with h | h
+        · have := hf p h; omega
+        · simp at h; subst h; simp
+    · have hh' : s.handle = false := by simpa using hh
+      constructor
+      · simp [step, hh', Abs.step, absOf]
+      · intro r s' hst; simp [step, hh'] at hst
+  | dropBus =>
+    by_cases hh : s.handle = true
+    · constructor
+      · simp only [step, hh, if_true, Option.map, Abs.step, absOf, dropBus]
+        congr 2
+      · intro r s' hst
+        simp only [step, hh, if_true, Option.some.injEq, Prod.mk.injEq] at hst
+        obtain ⟨_, rfl⟩ := hst
+        exact ⟨⟨hi.len_le, hi.buf_eq, hi.fr_le, hi.nodup, hi.minimal⟩, hf, by simp [dropBus]⟩
+    · have hh' : s.handle = false := by simpa using hh
+      constructor
+      · simp [step, hh', Abs.step, absOf]
+      · intro r s' hst; simp [step, hh'] at hst
   | next k =>
     cases hl : lookup k s.reads with
     | none =>
@@ -583,7 +618,7 @@ theorem step_refines (src : Nat → α) (s : St α) (op : Op) (hi : Inv src s) (
       · simp [step, h1, Abs.step, absOf, h2]
       · intro r s' hst; simp [step, h1] at hst
     | some fr =>
-      obtain ⟨frame, s1, e, hframe, hc, hoth, hpos, hnk, hsub, hinv⟩ := nextFrame_spec src s k fr hi hl
+      obtain ⟨frame, s1, e, hframe, hc, hoth, hpos, hnk, hhd, hsub, hinv⟩ := nextFrame_spec src s k fr hi hl
       have h2 : cursor s k = some (base s + fr) := by simp [cursor, hl]
       constructor
       · simp only [step, e, Option.map, Abs.step, absOf, h2, hframe]
@@ -595,6 +630,7 @@ theorem step_refines (src : Nat → α) (s : St α) (op : Op) (hi : Inv src s) (
           · subst hk; simp [hc]
           · simp [hk, hoth k' hk]
         · exact hnk
+        · exact hhd
       · intro r s' hst
         simp only [step, e, Option.map, Option.some.injEq, Prod.mk.injEq] at hst
         obtain ⟨_, rfl⟩ := hst
@@ -608,7 +644,7 @@ theorem step_refines (src : Nat → α) (s : St α) (op : Op) (hi : Inv src s) (
       · simp [step, h1, Abs.step, absOf, h2]
       · intro r s' hst; simp [step, h1] at hst
     | some fr =>
-      obtain ⟨s1, e, hc, hoth, hpos, hnk, hsub, hinv⟩ := dropOutput_spec src s k fr hi hl
+      obtain ⟨s1, e, hc, hoth, hpos, hnk, hhd, hsub, hinv⟩ := dropOutput_spec src s k fr hi hl
       have h2 : cursor s k = some (base s + fr) := by simp [cursor, hl]
       constructor
       · simp only [step, e, Option.map, Abs.step, absOf, h2]
@@ -620,6 +656,7 @@ theorem step_refines (src : Nat → α) (s : St α) (op : Op) (hi : Inv src s) (
           · subst hk; simp [hc]
           · simp [hk, hoth k' hk]
         · exact hnk
+        · exact hhd
       · intro r s' hst
         simp only [step, e, Option.map, Option.some.injEq, Prod.mk.injEq] at hst
         obtain ⟨_, rfl⟩ := hst
@@ -707,16 +744,29 @@ theorem Abs.received_run (src : Nat → α) (k : Nat) (ops : List Op) :
         subst h
         cases op with
         | send =>
-          simp only [Abs.step, Option.some.injEq, Prod.mk.injEq] at hst
-          obtain ⟨rfl, rfl⟩ := hst
-          have hmod : (a.nextKey + 1) % usizeMod = a.nextKey + 1 := Nat.mod_eq_of_lt (by omega)
-          have hne : k ≠ a.nextKey := by omega
-          obtain ⟨i1, i2⟩ := ih _ rest hr (by simp only [hmod]; omega) (by simp only [hmod]; omega)
-          simp only [hne, if_false] at i1 i2
-          simp only [received, List.count_cons]
-          constructor
-          · intro c hc; simpa using i1 c hc
-          · intro hc; simpa using i2 hc
+          simp only [Abs.step] at hst
+          by_cases hh : a.handle = true
+          · simp only [hh, if_true, Option.some.injEq, Prod.mk.injEq] at hst
+            obtain ⟨rfl, rfl⟩ := hst
+            have hmod : (a.nextKey + 1) % usizeMod = a.nextKey + 1 := Nat.mod_eq_of_lt (by omega)
+            have hne : k ≠ a.nextKey := by omega
+            obtain ⟨i1, i2⟩ := ih _ rest hr (by simp only [hmod]; omega) (by simp only [hmod]; omega)
+            simp only [hne, if_false] at i1 i2
+            simp only [received, List.count_cons]
+            constructor
+            · intro c hc; simpa using i1 c hc
+            · intro hc; simpa using i2 hc
+          · simp [hh] at hst
+        | dropBus =>
+          simp only [Abs.step] at hst
+          by_cases hh : a.handle = true
+          · simp only [hh, if_true, Option.some.injEq, Prod.mk.injEq] at hst
+            obtain ⟨rfl, rfl⟩ := hst
+            obtain ⟨i1, i2⟩ := ih _ rest hr hk (by simp only; omega)
+            have hb : (Op.dropBus == Op.next k) = false := by simp
+            simp only [received, List.count_cons, hb]
+            exact ⟨fun c hc => by simpa using i1 c hc, fun hc => by simpa using i2 hc⟩
+          · simp [hh] at hst
         | next k' =>
           simp only [Abs.step] at hst
           cases hc' : a.cur k' with
